@@ -880,9 +880,20 @@ pub fn repeat_load(t: &mut Target, bytes: &[u8], st: &mut C10Stats) -> Option<Vi
 pub fn buffer_set(base: u64, bi: u64, n_sampled: u64) -> BufferSet {
     let seed = mix3(base, tag_of("C10"), bi);
     let p = buffer_profile();
-    let wa = gen_world(seed, &p);
-    let wb = gen_world(seed ^ 0xb, &p);
-    let mut wt = gen_world(seed ^ 0x7a, &p);
+    // (the rare very long lists of the world generator are for the history checks: an image of 4 000
+    // rules cannot be enumerated fault by fault inside a worker's deadline)
+    let small = |mut sd: u64| -> World {
+        loop {
+            let w = gen_world(sd, &p);
+            if w.rules.len() <= 400 {
+                return w;
+            }
+            sd = mix3(sd, 0x5a11, 1);
+        }
+    };
+    let wa = small(seed);
+    let wb = small(seed ^ 0xb);
+    let mut wt = small(seed ^ 0x7a);
     // resource-store observers: one redirect rule and one request per resource name, loaded or not, so
     // that the answers of the target engine show which names its resource store resolves
     for (i, name) in ["missing.js", "smuggled.js", "noop.js", "1x1.gif", "noop.txt", "blank"].iter().enumerate() {
